@@ -64,7 +64,20 @@ def gen_seq(ctx, k):
     sc = Scn(seed=ctx.seed * 47 + k, watchdog=240000)
     sc.add(*cfggen.bus_lines(cfg, nodes), 'bus brackets 1', f'start {d} 0', 'quiesce', 'snap s0')
     n = rng.randrange(10, 80)
+    lost_at = rng.randrange(3, n) if n > 4 and rng.random() < 0.4 else -1
     for i in range(n):
+        if i == lost_at:
+            # a detector board drops off the bus while trains stand on its segments: whatever the library does with those segments, the
+            # trains must keep agreeing with the address lists (and nothing else is specified to change)
+            conn = [b for b in cfg['boards'] if m.connected(b['id']) and m.addr[b['id']] != (0, 0, 0) and b.get('segments')]
+            if conn:
+                L = rng.choice(conn)
+                a = m.addr[L['id']]
+                dpt = 1 if a[1] == 0 else 2 if a[2] == 0 else 3
+                parent = tuple(list(a[:dpt - 1]) + [0] * (3 - (dpt - 1)))
+                data = bytes([2, a[dpt - 1]]) + L['uid']
+                m.on_uplink(parent, C('MSG_NODE_LOST'), data)
+                sc.add(f'bus delnode {a[0]}.{a[1]}.{a[2]}', up(model.build_msg(parent, 0, C('MSG_NODE_LOST'), data)), 'quiesce', 'flush', 'quiesce', f'snap lost{i}')
         msgs = []
         for _ in range(1 if rng.random() < 0.8 else rng.randrange(2, 4)):
             g = gen_bm(rng, m, cfg)
